@@ -134,7 +134,7 @@ def apply(scratch, reg, obligations):
     s = _read(lib)
     s += "\n#[cfg(kani)]\n#[allow(dead_code, unused)]\npub(crate) mod verif_support;\n"
     # crate-level feature gate needed by the generic Arc::drop_slow stub (cfg(kani) only)
-    s = "#![cfg_attr(kani, feature(allocator_api))]\n" + s
+    s = "#![cfg_attr(kani, feature(allocator_api))]\n#![cfg_attr(kani, recursion_limit = \"1024\")]\n" + s
     _write(lib, s)
     record["support"].append("verif_support.rs")
     return record
